@@ -20,6 +20,7 @@ func extractMore(f *Facts) {
 	extractProcess(f)
 	extractPanicSkeleton(f)
 	extractEnvFacts(f)
+	extractConfigFacts(f)
 }
 
 // extractStubInterface parses shim.ChaincodeStubInterface from the module cache copy named in go.mod.
